@@ -369,3 +369,25 @@ Proof. unfold sstep, tag_of. simpl. intros ->. auto. Qed.
 
 Lemma tag_distinct a b : s_digest a <> s_digest b -> tag_of a <> tag_of b.
 Proof. unfold tag_of. auto. Qed.
+
+(* ---------- "exactly the live manifests" fails for Push(A) || Delete(A) ---------- *)
+
+Definition race_A := mkDesc 1 0 0.
+Definition race_trace : list mevent :=
+  [MPut 1;                                   (* Push(A): manifest PUT (A was live already) *)
+   MIdx (EGet 0 (Remove race_A)); MIdx (EAssign 0);   (* Delete(A) fetched A and enters the index update *)
+   MIdx (EGet 1 (Add race_A)); MIdx (EAssign 1);      (* Push(A) joins the same batch *)
+   MIdx (ERecvMain 0); MIdx (EPrepare 0 false); MIdx (ECommit 0);   (* [Remove A; Add A] on [A]: no update *)
+   MIdx (EComplete 0); MIdx (EDone 0); MIdx (EDone 1);
+   MDel 1]%nat.                              (* Delete(A): manifest DELETE *)
+
+Lemma listing_is_live_refuted :
+  exists m, mrun false (init (Some [race_A]) [], [1]) race_trace = Some m /\
+    quiescent (fst m) /\
+    pcs (fst m) 0%nat = Done ROk /\ pcs (fst m) 1%nat = Done ROk /\
+    memb (reg (fst m)) 1 = true /\ is_live 1 m = false.
+Proof.
+  eexists. split; [vm_compute; reflexivity|]. split.
+  - intro t. do 2 (destruct t as [|t]; [right; eexists; reflexivity|]). left. reflexivity.
+  - repeat split.
+Qed.
